@@ -320,9 +320,10 @@ func init() {
 	intrinsics["(time.Duration).String"] = func(m *Machine, fr *frame, a []Value) Value { return ConcStr("<duration>") }
 	intrinsics["time.After"] = func(m *Machine, fr *frame, a []Value) Value {
 		c := m.newChan(1)
-		m.addTimer(a[0].(*Term), "time.After", func() {
+		t := m.addTimer(a[0].(*Term), "time.After", func() {
 			c.buf = append(c.buf, m.timeStruct(m.now))
 		})
+		t.ch, c.timer = c, t
 		return c
 	}
 	// Ticker: struct{ C <-chan Time; r ...; initTicker bool }
@@ -344,6 +345,7 @@ func init() {
 			}
 		}
 		t.dormant = func() bool { return len(c.buf) > 0 }
+		t.ch, c.timer = c, t
 		m.tickers[p] = t
 		return p
 	}
@@ -364,6 +366,9 @@ func init() {
 			cell.(Struct)[0] = c
 		}
 		t := m.addTimer(d, "timer", nil)
+		if c != nil {
+			t.ch, c.timer = c, t
+		}
 		t.fire = func() {
 			if f != nil {
 				g := m.newG("AfterFunc", nil)
